@@ -553,6 +553,13 @@ func (pr *printer) source() string {
 			}
 			return i
 		}
+		if p.Shadow {
+			// The shadowing variables come first: function literals bound to
+			// local variables (spelling SpVar) read them.
+			for i := range f.Params {
+				fmt.Fprintf(&resDecl, "\t%s := mkT%d(x.Param(%d))\n", p.shadowName(i), f.Params[i], i)
+			}
+		}
 		var os []opt
 		if len(f.Params) > 0 {
 			mk := func(idx []int) func() string {
@@ -560,8 +567,7 @@ func (pr *printer) source() string {
 					var a []string
 					for _, i := range idx {
 						if p.Shadow {
-							name := p.shadowName(i)
-							fmt.Fprintf(&pr.pre, "\t%s := mkT%d(x.Param(%d))\n", name, f.Params[i], i)
+							name := p.shadowName(i) // declared up front, see below
 							if p.Bare {
 								fmt.Fprintf(&pr.poison, "\t\t%s = mkT%d(x.Poison(%d))\n", name, f.Params[i], pr.site)
 								pr.site++
